@@ -67,6 +67,21 @@ def gen_case(rng):
             script.append({'op': 'idle', 'gap': ('rto', rng.uniform(0.8, 4.5))})
         else:
             script.append({'op': 'odd', 'gap': g, 'sample': sample, 'how': rng.choice(['back', 'unaligned', 'far'])})
+    if rng.random() < 0.2:
+        # a loss that fast retransmit does not repair: three or more duplicates of one ACK, then silence until retransmission
+        # timers run out (once or several times), then MORE duplicates of the same ACK before any new one - "further duplicates
+        # add one MSS each" holds for every duplicate beyond the third until the next new ACK, timer expiries in between or not
+        at = rng.randint(0, len(script))
+        burst = [{'op': 'dup', 'gap': rng.choice([0.0, rng.uniform(0.0005, 0.01)]), 'run': rng.choice([3, 3, 4, 5, 7]), 'sample': 'stamp',
+                  'spacing': rng.choice([0.0, 0.001, 0.02])}]
+        for _ in range(rng.choice([1, 1, 2])):
+            burst.append({'op': 'idle', 'gap': ('rto', rng.uniform(1.05, 2.6))})
+            burst.append({'op': 'dup', 'gap': rng.choice([0.0, rng.uniform(0.0005, 0.01)]), 'run': rng.choice([1, 2, 3, 4, 6, 9]), 'sample': 'stamp',
+                          'spacing': rng.choice([0.0, 0.001, 0.02])})
+        if at > 0 and rng.random() < 0.7:
+            # outstanding data first (a new ACK opens the window; the segments sent then are the ones whose timers expire)
+            burst.insert(0, {'op': 'new', 'gap': rng.uniform(0.01, 0.3), 'k': 1, 'sample': 'stamp', 'pid': 'inorder', 'beyond': False})
+        script[at:at] = burst
     return {'kind': kind, 'ccmss': ccmss, 'cwnd': cwnd, 'ssthresh': ssthresh, 'rtt_estimate': rtt, 'size': size,
             'script': script}
 
@@ -257,10 +272,15 @@ def oracle(case, sr, hist):
                               f'dup={r["before"]["dup"]} rto={r["before"]["rto"]}; after cwnd={r["after"]["cwnd"]} '
                               f'ssthresh={r["after"]["ssthresh"]} dup={r["after"]["dup"]} rto={r["after"]["rto"]}]',
                       'signature': sig})
+    # the duplicate count is the oracle's own: the number of consecutive ACK events repeating the acknowledged mark since the last
+    # ACK that did not (timer expiries in between do not start a new count: "further duplicates add one MSS each" until the next new ACK)
+    ndup, expired = 0, False
     for r in sr.records:
         b, a = r['before'], r['after']
         if fails:
             break
+        if r['tag'] == 'F' and ndup > 0:
+            expired = True
         if not (a['cwnd'] >= mss):
             bad(f'cwnd fell below one MSS ({a["cwnd"]} < {mss})', 'cwnd-below-mss', r)
         if r['tag'] == 'W':
@@ -291,9 +311,18 @@ def oracle(case, sr, hist):
             ackno, pid = int(ackno), int(pid)
             sample = r['now'] - tcpsim_unbits(pt)
             if ackno == b['lack']:
-                n = b['dup'] + 1
+                ndup += 1
+                n = ndup
+                if expired and n > 3:
+                    hist['oracle-dupacks-beyond-the-third-after-a-timeout'] += 1
+                if n > 3 and a['dup'] != n and (not close(a['cwnd'], b['cwnd'] + mss) or not close(a['ssthresh'], b['ssthresh'])):
+                    bad(f'duplicate ACK #{n} of {ackno} since the last new ACK{" (retransmission timers expired in between)" if expired else ""}: '
+                        f'further duplicates add one MSS each, wanted cwnd {b["cwnd"] + mss} and ssthresh unchanged; the sender counts it as duplicate #{a["dup"]}',
+                        'more-dupacks-window', r)
+                    break
                 if a['dup'] != n:
-                    bad(f'duplicate ACK counted {a["dup"]}, wanted {n}', 'dup-count', r)
+                    bad(f'duplicate ACK counted {a["dup"]}, wanted {n} (it is consecutive ACK #{n} of {ackno} since the last new ACK'
+                        f'{"; retransmission timers expired in between" if expired else ""})', 'dup-count', r)
                 if n == 3:
                     hist['oracle-third-dupack'] += 1
                     ss = max(2 * mss, b['cwnd'] / 2)
@@ -312,6 +341,7 @@ def oracle(case, sr, hist):
                 if not (close(a['rto'], b['rto']) and close(a['srtt'], b['srtt']) and close(a['dev'], b['dev'])):
                     bad('a duplicate ACK changed the RTT estimator', 'dupack-estimator', r)
             else:
+                ndup, expired = 0, False
                 # deflation to ssthresh only when fast recovery was entered (third duplicate seen); after one or two
                 # duplicates a new ACK is a plain new ACK
                 cw0 = b['ssthresh'] if b['dup'] >= 3 else b['cwnd']
